@@ -62,6 +62,11 @@ def arm_template(fx, arm):
                 wild.append(str(i))
     fas = [n for n, ps in walk(arm["body"]) if n.get("k") == "FormatArgs"]
     if not fas:
+        # f.write_str("literal") / f.pad("literal")
+        lits = [peel(n["args"][0])["lit"]["v"] for n, ps in walk(arm["body"]) if n.get("k") == "MethodCall" and n["name"] in ("write_str", "pad") and n["args"] and
+                peel(n["args"][0]).get("k") == "Lit" and peel(n["args"][0])["lit"].get("t") == "str"]
+        if len(lits) == 1:
+            return lits[0], {}, [binds[l] for l in binds], wild
         return None, {}, [], wild
     # the write!() to the formatter is the last FormatArgs; earlier ones (e.g. per-member to_string) feed locals
     fa = fas[-1]
